@@ -97,6 +97,7 @@ func c13Alphabet() []respEnv {
 }
 
 func runC13(r *Run) {
+	c13Surplus(r)
 	alpha := c13Alphabet()
 	rng := r.Rand("c13")
 	var seqs [][]respEnv
